@@ -341,6 +341,74 @@ SHADOW = {
 }
 FAMILY.update(SHADOW)
 
+# concrete constraints / indexes / pointers customised again two or more
+# inheritance steps below their declaration (the object's base is itself
+# inherited there; DESCRIBE must still print a replayable identity)
+_LENMAX = ('abstract constraint lenmax(m: int64) on (len(__subject__)) '
+           '{ using (__subject__ <= m); errmessage := "too long"; } ')
+INHCON = {
+    'INH3_excl_on': D(
+        'abstract type N { k: int64; constraint exclusive on (.k); } '
+        'type N2 extending N; type N3 extending N2 { '
+        'constraint exclusive on (.k) { errmessage := "dup3" } }'),
+    'INH3_excl_on_mid': D(
+        'abstract type N { k: int64; constraint exclusive on (.k); } '
+        'type N2 extending N { constraint exclusive on (.k) '
+        '{ errmessage := "dup2" } } type N3 extending N2 { '
+        'constraint exclusive on (.k) { annotation title := "t3" } }'),
+    'INH4_excl_on': D(
+        'abstract type N { k: int64; j: int64; '
+        'constraint exclusive on ((.k, .j)); } '
+        'type N2 extending N; type N3 extending N2; type N4 extending N3 { '
+        'constraint exclusive on ((.k, .j)) { errmessage := "dup4" } }'),
+    'INH3_expr_prop': D(
+        'type N { name: str { constraint expression on '
+        '(len(__subject__) > 0) } } type N2 extending N; '
+        'type N3 extending N2 { overloaded name: str { constraint expression '
+        'on (len(__subject__) > 0) { errmessage := "empty" } } }'),
+    'INH3_expr_type': D(
+        'type N { a: int64; b: int64; constraint expression on (.a < .b); } '
+        'type N2 extending N; type N3 extending N2 { constraint expression '
+        'on (.a < .b) { errmessage := "order" } }'),
+    'INH3_abs_on': D(
+        _LENMAX + 'type N { name: str { constraint lenmax(5) } } '
+        'type N2 extending N; type N3 extending N2 { overloaded name: str '
+        '{ constraint lenmax(5) { errmessage := "long3" } } }'),
+    'INH3_abs_noon': D(
+        'abstract constraint lm(m: int64) { using (len(__subject__) <= m); } '
+        'type N { name: str; constraint lm(5) on (.name); } '
+        'type N2 extending N; type N3 extending N2 { '
+        'constraint lm(5) on (.name) { errmessage := "long3" } }'),
+    'INH3_plain': D(
+        'type N { name: str { constraint exclusive } } type N2 extending N; '
+        'type N3 extending N2 { overloaded name: str { constraint exclusive '
+        '{ errmessage := "dup3" } } }'),
+    'INH3_deleg': D(
+        'abstract type N { name: str { delegated constraint exclusive } } '
+        'abstract type N2 extending N; type N3 extending N2 { overloaded '
+        'name: str { constraint exclusive { errmessage := "dup3" } } }'),
+    'INH3_link': D(
+        'type T { n: int64; } abstract type N { link t: T { w: int64; '
+        'constraint exclusive on (@w); } } type N2 extending N; '
+        'type N3 extending N2 { overloaded link t: T { constraint exclusive '
+        'on (@w) { errmessage := "w3" } } }'),
+    'INH3_idx': D(
+        'abstract type N { name: str; index on (.name); } '
+        'type N2 extending N; type N3 extending N2 { index on (.name) '
+        '{ annotation title := "i3" } }'),
+    'INH3_scalar': D(
+        'scalar type S1 extending int64 { constraint min_value(0); } '
+        'scalar type S2 extending S1; scalar type S3 extending S2 { '
+        'constraint min_value(0) { errmessage := "neg3" } } '
+        'type N { s: S3; }'),
+    'INH3_except': D(
+        'abstract type N { k: int64; dead: bool; constraint exclusive on '
+        '(.k) except (.dead); } type N2 extending N; type N3 extending N2 '
+        '{ constraint exclusive on (.k) except (.dead) '
+        '{ errmessage := "dup3" } }'),
+}
+FAMILY.update(INHCON)
+
 QUICK = ['empty', 'A', 'A_req', 'A_excl', 'A_multi', 'A_idx', 'A_comp',
          'A_ren', 'A_int', 'B_only', 'AB_link', 'AB_mlink', 'AB_back',
          'AB_inh', 'S_enum', 'A_tcon', 'C_3bases', 'C_1base', 'C_4bases',
